@@ -348,3 +348,100 @@ def eigen_decision_tie(A, thr=1e-6):
         return True, "spherical", 0.0
     name = min(m, key=lambda q: m[q])
     return bool(m[name] <= thr), name, m[name]
+
+
+# ---------------------------------------------------------------------------------------------------
+# evolved internal states (C08): pre-load alphabet of the E-BFS, probing deformations, measured classes
+# ---------------------------------------------------------------------------------------------------
+
+CANON_STATE = 1e-10                                     # rounding of the internal state for de-duplication (as C09-C11)
+PRELOAD_DT_RATIOS = [("0.1", 0.1), ("10", 10.0)]        # viscous models: pre-load step dt / relaxation time
+PRELOAD_J2_AMPLITUDES = [("2.5ey", 2.5), ("8ey", 8.0)]  # J2: multiples of the uniaxial-strain yield strain Y0/(2 mu)
+PRELOAD_VISCO_AMPLITUDES = {"uniax-x": 0.4, "shear-xy": 0.4, "uniax-30deg": 0.3}
+PROBE_STRETCHES = ["1-0.3", "1+1e-4", "1+1e-2", "1+0.3", "2"]
+
+
+def preload_patterns():
+    """(label, D) with the pre-load target H = a D: uniaxial stretch along x, simple shear, stretch along an in-plane axis at
+    30 degrees.  None of them is coaxial with the whole probing alphabet (measured per case by `noncoaxiality`)."""
+    e1, e2 = onp.array([1.0, 0.0, 0.0]), onp.array([0.0, 1.0, 0.0])
+    n = onp.array([onp.cos(onp.pi / 6), onp.sin(onp.pi / 6), 0.0])
+    return [("uniax-x", onp.outer(e1, e1)), ("shear-xy", onp.outer(e1, e2)), ("uniax-30deg", onp.outer(n, n))]
+
+
+def preload_targets_visco():
+    return [("%s:%g" % (l, PRELOAD_VISCO_AMPLITUDES[l]), PRELOAD_VISCO_AMPLITUDES[l] * D) for l, D in preload_patterns()]
+
+
+def preload_targets_j2(ey):
+    return [("%s:%s" % (l, al), a * ey * D) for al, a in PRELOAD_J2_AMPLITUDES for l, D in preload_patterns()]
+
+
+def probe_deformations(tier, seed):
+    """Probing deformation gradients at the evolved internal states: a labelled subset of deformations('quick', seed)
+    (uniaxial strain along all 6 in-plane axes x 5 stretches, 2 equibiaxial, 1 dilation, the 9 quick 3-D triples with the
+    fixed Euler pair; thorough: also with the generic pair) plus two simple shears."""
+    pairs = ("euler|euler2", "generic|z0.3") if tier == "thorough" else ("euler|euler2",)
+    out = []
+    for l, kind, F in deformations("quick", seed):
+        head, _, rest = l.partition(":")
+        if kind == "uniaxial":
+            keep = rest.split("@")[0] in PROBE_STRETCHES
+        elif kind == "equibiaxial":
+            keep = rest in ("1-0.3", "2")
+        elif kind == "dilation":
+            keep = rest == "1+0.3"
+        else:
+            keep = rest.split("|", 1)[1] in pairs
+        if keep:
+            out.append((l, kind, F))
+    for l, i, j, g in (("shear-xy:0.5", 0, 1, 0.5), ("shear-yx:1e-2", 1, 0, 1e-2)):
+        F = I3.copy()
+        F[i, j] = g
+        out.append((l, "shear", F))
+    return out
+
+
+def state_parts(model, opt, S):
+    """Reference-side view of internal-state rows S (..., nstate): ('multiplicative', Fin (..., nb, 3, 3)) for the viscous
+    distortions / the plastic distortion, ('additive', Ep (..., 1, 3, 3)) for the Seth-Hill plastic strain."""
+    S = onp.asarray(S, dtype=float)
+    lead = S.shape[:-1]
+    if model == "J2Plastic":
+        X = S[..., 1:10].reshape(lead + (1, 3, 3))
+        return ("additive" if opt == "kinematics=seth hill" else "multiplicative"), X
+    nb = S.shape[-1] // 9
+    return "multiplicative", S.reshape(lead + (nb, 3, 3))
+
+
+def elastic_info(F, how, X):
+    """Measured classes of the symmetric tensor the model decomposes for (F, internal state): C_e = Fe^T Fe with Fe = F Fin^-1
+    per branch (multiplicative), C = F^T F (additive).  F (..., 3, 3), X (..., nb, 3, 3).  Returns the worst over the
+    branches: relative gap (and the larger gap of that branch), largest |log elastic stretch|, largest stretch ratio."""
+    F = onp.asarray(F, dtype=float)
+    if how == "multiplicative":
+        Fe = F[..., None, :, :] @ onp.linalg.inv(X)
+    else:
+        Fe = onp.broadcast_to(F[..., None, :, :], onp.broadcast_shapes(F[..., None, :, :].shape, X.shape))
+    inf = stretch_info(Fe)
+    k = onp.argmin(inf["gap"], axis=-1)[..., None]
+    return {"gap": onp.take_along_axis(inf["gap"], k, -1)[..., 0], "gap2": onp.take_along_axis(inf["gap2"], k, -1)[..., 0],
+            "logmax": inf["logmax"].max(axis=-1), "ratio": (inf["lam_max"] / inf["lam"][..., 0]).max(axis=-1),
+            "Ce": onp.swapaxes(Fe, -1, -2) @ Fe}
+
+
+def noncoaxiality(F, how, X):
+    """max over branches of |C B - B C|_F / (|C|_F |B|_F), C = F^T F, B = (Fin^T Fin)^-1 (multiplicative) or Ep (additive):
+    0 when the probing deformation and the internal state share principal axes (then F Fin^-1 and Fin^-1 F have the same
+    invariants for symmetric F, Fin) and for the virgin state."""
+    F = onp.asarray(F, dtype=float)
+    C = (onp.swapaxes(F, -1, -2) @ F)[..., None, :, :]
+    if how == "multiplicative":
+        Xi = onp.linalg.inv(X)
+        B = Xi @ onp.swapaxes(Xi, -1, -2)
+    else:
+        B = 0.5 * (X + onp.swapaxes(X, -1, -2))
+    nb = fro(B)
+    with onp.errstate(all="ignore"):
+        r = fro(C @ B - B @ C) / (fro(C) * onp.where(nb > 0, nb, 1.0))
+    return r.max(axis=-1)
